@@ -113,8 +113,8 @@ def gen_embed(rng):
 
 def gen_pool(rng):
   nd = rng.choice([1, 1, 2])
-  batch = rng.random() < 0.8
-  shape = ([rng.randint(1, 2)] if batch else []) + [rng.randint(3, 6) for _ in range(nd)] + [rng.randint(1, 2)]
+  nbatch = rng.choice([0, 1, 1, 1, 2])          # missing, one, or extra batch dimensions
+  shape = [rng.randint(1, 2) for _ in range(nbatch)] + [rng.randint(3, 6) for _ in range(nd)] + [rng.randint(1, 2)]
   return {'layer': 'pool', 'op': rng.choice(['avg', 'max', 'min']), 'x': ints(rng, shape, -5, 5), 'window': [rng.randint(1, 3) for _ in range(nd)],
           'strides': [rng.randint(1, 3) for _ in range(nd)], 'padding': rng.choice(['SAME', 'VALID', [[rng.randint(0, 2), rng.randint(0, 2)] for _ in range(nd)]]), 'count_include_pad': rng.random() < 0.5}
 
